@@ -165,8 +165,8 @@ Theorem C18_tombstones : forall topics tombs,
 Proof. intros topics tombs. split. apply pair_tombstones_ok. apply pair_pure_spec. Qed.
 Print Assumptions C18_tombstones.
 
-(* the only non-200, non-502 outcomes of the topic and channel views: a null channel inside a
-   selected topic, resp. no node having the channel -- a recovered panic (500), the process lives *)
+(* the only non-200, non-502 outcome of the topic view: the selected topic's channel lists hold a
+   null that is not the only channel there is -- a recovered panic (500), the process lives *)
 Theorem C18_topic_view_spec : forall producers stats_of t,
   topic_view producers stats_of t =
   match producers with
@@ -174,7 +174,7 @@ Theorem C18_topic_view_spec : forall producers stats_of t,
   | AOk ps n1 =>
       match nsqd_stats_pure (map (fun p => (p, stats_of p)) ps) t with
       | AHard => Ok (VStatus 502)
-      | AOk st n2 => if has_null_chan (fst st) then Recovered
+      | AOk st n2 => if null_chan_panics (fst st) then Recovered
                      else Ok (VOk (tagg_of (fst st)) (warn_of n1 || warn_of n2))
       end
   end.
